@@ -73,8 +73,27 @@ func (m *mapping) conc(seg string) string {
 		return m.rootName
 	case "root-other":
 		return m.rootName + "-other"
+	case "ROOT":
+		return otherCase(m.rootName)
+	case "bs2":
+		return bs2Name
 	}
 	return seg
+}
+
+// bs2Name: parent references written with backslashes - on this platform one ordinary file name.
+const bs2Name = `..\..\bsx`
+
+// otherCase is the name in the other letter case (a different directory on a case-sensitive file system).
+func otherCase(s string) string {
+	u := strings.ToUpper(s)
+	if u == s {
+		u = strings.ToLower(s)
+	}
+	if u == s {
+		u = s + "-CASE"
+	}
+	return u
 }
 
 func (m *mapping) sym(seg string) string {
@@ -83,6 +102,10 @@ func (m *mapping) sym(seg string) string {
 		return "root"
 	case m.rootName + "-other":
 		return "root-other"
+	case otherCase(m.rootName):
+		return "ROOT"
+	case bs2Name:
+		return "bs2"
 	}
 	return seg
 }
